@@ -40,7 +40,7 @@ Definition rec_init (nspaces : nat) (initial_rtt : T) (mss : Z) (pcav : bool) (c
   mkRec (repeat space_init nspaces) pcav (fconstv F CMaxAckDelay0) 0 initial_rtt false
         (fofZ F 0) (fconstv F CInf) (fofZ F 0) (fofZ F 0) (fofZ F 0) c0 (pacer_init F mss) 0.
 
-Definition ev := (Z * Z * bool)%type.   (* space, packet number, lost (false = ACKED) *)
+Definition ev := (nat * Z * bool)%type.   (* space index, packet number, lost (false = ACKED) *)
 
 (* ---------- dict helpers ---------- *)
 Fixpoint dict_set (p : pkt T) (l : list (pkt T)) : list (pkt T) :=
@@ -175,8 +175,8 @@ Definition detect_loss (st : rec) (s : space) (c : C) (pc : pacer) (now : T)
   let '(s2, c', pc') := packets_lost s1 c pc (r_smoothed st) now lost in
   (s2, c', pc', keys lost).
 
-Definition lost_evs (i : nat) (pns : list Z) : list ev := map (fun k => (Z.of_nat i, k, true)) pns.
-Definition acked_evs (i : nat) (pns : list Z) : list ev := map (fun k => (Z.of_nat i, k, false)) pns.
+Definition lost_evs (i : nat) (pns : list Z) : list ev := map (fun k => (i, k, true)) pns.
+Definition acked_evs (i : nat) (pns : list Z) : list ev := map (fun k => (i, k, false)) pns.
 
 (* ---------- on_ack_received ---------- *)
 Record ackst := mkAck {
@@ -256,25 +256,35 @@ Definition on_ack_received (st : rec) (i : nat) (rsn : rs) (ack_delay now : T) :
   end.
 
 (* ---------- reschedule_data / on_loss_detection_timeout ---------- *)
-Fixpoint resched_spaces (st : rec) (i : nat) (l : list space) (c : C) (pc : pacer) (now : T)
-  : list space * C * pacer * list ev :=
-  match l with
-  | [] => ([], c, pc, [])
-  | s :: t =>
-      let crypto := filter p_crypto (sp_sent s) in
-      let '(s', c', pc') :=
-        match crypto with
-        | [] => (s, c, pc)
-        | _ => packets_lost s c pc (r_smoothed st) now crypto
-        end in
-      let '(t', c'', pc'', evs) := resched_spaces st (S i) t c' pc' now in
-      (s' :: t', c'', pc'', lost_evs i (keys crypto) ++ evs)
+(* `for space in self.spaces:` one space at a time, by index *)
+Definition resched_one (st : rec) (i : nat) (now : T) : rec * list ev :=
+  match nth_error (r_spaces st) i with
+  | None => (st, [])
+  | Some s =>
+      match filter p_crypto (sp_sent s) with
+      | [] => (st, [])
+      | crypto =>
+          let '(s', c, pc) := packets_lost s (r_cc st) (r_pacer st) (r_smoothed st) now crypto in
+          (set_spaces_cc st (upd_nth i (fun _ => s') (r_spaces st)) c pc, lost_evs i (keys crypto))
+      end
   end.
 
+Fixpoint resched_from (n i : nat) (st : rec) (now : T) : rec * list ev :=
+  match n with
+  | O => (st, [])
+  | S n' =>
+      let '(st1, e1) := resched_one st i now in
+      let '(st2, e2) := resched_from n' (S i) st1 now in
+      (st2, e1 ++ e2)
+  end.
+
+Definition add_probe (st : rec) : rec :=
+  mkRec (r_spaces st) (r_pcav st) (r_mad st) (r_pto st) (r_rtt_initial st) (r_rtt_init st) (r_latest st) (r_min st)
+        (r_smoothed st) (r_var st) (r_tlast st) (r_cc st) (r_pacer st) (r_probes st + 1).
+
 Definition reschedule_data (st : rec) (now : T) : rec * list ev :=
-  let '(sps, c, pc, evs) := resched_spaces st O (r_spaces st) (r_cc st) (r_pacer st) now in
-  (mkRec sps (r_pcav st) (r_mad st) (r_pto st) (r_rtt_initial st) (r_rtt_init st) (r_latest st) (r_min st)
-         (r_smoothed st) (r_var st) (r_tlast st) c pc (r_probes st + 1), evs).
+  let '(st', evs) := resched_from (length (r_spaces st)) O st now in
+  (add_probe st', evs).   (* self._send_probe() *)
 
 Definition on_loss_detection_timeout (st : rec) (now : T) : rec * list ev :=
   match loss_space st with
